@@ -111,9 +111,17 @@ def gen_request(rng, focus=None):
     ]
     # --- virtual arguments
     n = rng.choice([0, 1, 2, 3, 4, 999, 10 ** 30])
+    huge = b"9" * rng.choice([4000, 5000, 20000])
     forms += [
         ("mbox-range", b"/mail.mbox|/MBOX-MESSAGE/%d\r\n" % n, False),
         ("mbox-nonnum", b"/mail.mbox|/MBOX-MESSAGE/abc\r\n", False),
+        ("mbox-huge-number", b"/mail.mbox|/MBOX-MESSAGE/" + huge + b"\r\n", False),
+        ("maildir-huge-number", b"/md|/MAILDIR-MESSAGE/" + huge + b"\r\n", False),
+        ("script-search-nul", b"/script.sh\ta\x00b\r\n", False),
+        ("script-search-nul-http", b"GET /script.sh?searchrequest=a%00b HTTP/1.0\r\n\r\n", False),
+        ("script-search-nul-gemini", b"gemini://h/script.sh?a%00b\r\n", True),
+        ("script-args-nul", b"/script.sh|a\x00b\r\n", False),
+        ("script-args-many", b"/script.sh|" + b"x " * 300 + b"\r\n", False),
         ("mbox-on-text", b"/small.txt|/MBOX-MESSAGE/1\r\n", False),
         ("mbox-on-missing", b"/nonexistent|/MBOX-MESSAGE/1\r\n", False),
         ("mbox-on-dir", b"/docs|/MBOX-MESSAGE/1\r\n", False),
@@ -187,6 +195,8 @@ def gen_request(rng, focus=None):
         ("spartan-extra-body", b"h " + q + b" 3\r\n" + body, False),
         ("spartan-neg", b"h " + q + b" -1\r\n", False),
         ("spartan-huge", b"h " + q + b" 99999999999999999999\r\n", False),
+        ("spartan-huge-digits", b"h " + q + b" " + b"0" * 5000 + b"\r\n", False),
+        ("spartan-body-nul-script", b"h /script.sh 3\r\na\x00b", False),
         ("spartan-pct-nul", b"h /a%00b 0\r\n", False),
         ("spartan-pct-lf", b"h /nope%0Ainjected 0\r\n", False),
         ("spartan-pct-crlf", b"h /nope%0D%0A2%20text/plain 0\r\n", False),
@@ -217,6 +227,7 @@ def gen(seed, index, tier):
     hist = []
     # half of the valid requests of a history address the same object (in different protocols)
     focus = rng.choice(["menu", "menu-root", "menu-root", "zip-listing", "mbox-folder", "gophermap", None,
+                        ["menu", "menu-via-symlink"], ["menu", "menu-via-symlink"],
                         ["zip-html-a", "zip-html-b", "zip-web-listing"],
                         ["mbox-message", "mbox-message-1", "mbox-folder", "maildir-message", "maildir-message-2"],
                         ["zip-member", "zip2-member", "zip-listing", "zip2-listing"],
